@@ -159,7 +159,7 @@ type btWorld struct {
 	mkStrat []func() strategy.Strategy
 }
 
-func buildWorld(cc *run.Case, pool []namedStrat, nAssets, nStrats int, repoKind string) *btWorld {
+func buildWorld(cc *run.Case, pool []namedStrat, nAssets, nStrats int, repoKind string, forced ...namedStrat) *btWorld {
 	r := cc.R
 	w := &btWorld{snaps: map[string][]*asset.Snapshot{}, inside: map[string][]*asset.Snapshot{}}
 	sc := btScenario{InWindow: map[string]int{}, Old: map[string]int{}, LastDays: r.Pick(365, 120, 60), Repo: repoKind}
@@ -223,6 +223,18 @@ func buildWorld(cc *run.Case, pool []namedStrat, nAssets, nStrats int, repoKind 
 		}
 	}
 	seen := map[string]bool{}
+	// members every scenario is given in turn, so that the whole pool (every
+	// strategy, as constructed and re-tuned through its fields) is backtested
+	// whatever the draws below pick
+	for _, ns := range forced {
+		nm := ns.New().Name()
+		if !seen[nm] {
+			seen[nm] = true
+			w.mkStrat = append(w.mkStrat, ns.New)
+			sc.Strategies = append(sc.Strategies, nm)
+		}
+	}
+	nStrats += len(w.mkStrat)
 	for len(w.mkStrat) < nStrats {
 		ns := pool[r.Intn(len(pool))]
 		nm := ns.New().Name()
@@ -650,7 +662,12 @@ func c13(ctx *run.Ctx, raceOnly bool) {
 		i := i
 		repoKind := []string{"memory", "filesystem", "memory", "sql"}[i%4]
 		ctx.Case(fmt.Sprintf("scenario/%s/%d", repoKind, i), func(cc *run.Case) {
-			w := buildWorld(cc, pool, cc.R.Range(1, 12), cc.R.Range(1, 8), repoKind)
+			off := 0
+			if raceOnly {
+				off = len(pool) / 2 // the race phase starts its turn through the pool elsewhere
+			}
+			w := buildWorld(cc, pool, cc.R.Range(1, 12), cc.R.Range(1, 6), repoKind,
+				pool[(off+3*i)%len(pool)], pool[(off+3*i+1)%len(pool)], pool[(off+3*i+2)%len(pool)])
 			ws := []int{1, 2, 3, 8, 16}
 			if raceOnly {
 				ws = []int{4, 16}
